@@ -124,9 +124,9 @@ func PackString(buffer []byte, maxLen uint, input string) (uint, error) {
 		return 0, fmt.Errorf("unable to encode string: %s", err)
 	}
 
-	if len(encoded) >= int(maxLen) {
-		encoded = encoded[:maxLen]
-		encoded[maxLen] = 0x00
+	if maxLen > 0 && len(encoded) >= int(maxLen) {
+		// Truncate, leaving room for the terminating zero byte written below.
+		encoded = encoded[:maxLen-1]
 	}
 
 	copy(buffer, encoded)
